@@ -90,7 +90,9 @@ def cases(tier, seed):
         for nmode in (1, 2):
             for diff in (False, True):
                 for periodic in (False, True):
-                    for jkind in ("quantity", "matrix"):
+                    for jkind in ("quantity", "matrix", "asymmetric", "hermitian-complex"):
+                        if jkind in ("asymmetric", "hermitian-complex") and (nmol < 2 or diff):
+                            continue
                         if periodic and nmol < 3 and jkind == "quantity":
                             pass
                         for scheme in (1, 2, 3, 4):
@@ -451,6 +453,12 @@ def run_holstein(desc, seed):
                 Jm[i, j] = Jm[j, i] = 0.2 + 0.1 * (i + 2 * j)
         if periodic and nmol > 1 and Jm[0, -1] == 0:
             Jm[0, -1] = Jm[-1, 0] = 0.11
+        if jkind == "asymmetric":
+            # an explicit coupling matrix that is not symmetric (non-reciprocal hopping): the documented Hamiltonian is sum_ij J_ij a+_i a_j
+            Jm = Jm * (1.0 + 0.5 * np.triu(np.ones((nmol, nmol)), 1))
+        elif jkind == "hermitian-complex":
+            ph_ = np.triu(np.array([[0.3 * (i + 1) + 0.2 * j for j in range(nmol)] for i in range(nmol)]), 1)
+            Jm = Jm * np.exp(1j * (ph_ - ph_.T))
         J = Jm.copy()
     try:
         model = HolsteinModel(mols, J, scheme=scheme, periodic=periodic)
@@ -470,7 +478,7 @@ def run_holstein(desc, seed):
         for k in range(nmode):
             Hvib += vib_op(i, k, 0.5 * o[k]["p2"] + 0.5 * om0[k] ** 2 * o[k]["x2"])
     H0 = Hvib                                   # zero-exciton sector
-    H1 = np.zeros((nmol * nvib, nmol * nvib))     # one-exciton sector: |i> x vib
+    H1 = np.zeros((nmol * nvib, nmol * nvib), dtype=complex if np.iscomplexobj(Jm) else float)     # one-exciton sector: |i> x vib
     for i in range(nmol):
         e0 = sum(0.5 * om1[k] ** 2 * dis[k] ** 2 for k in range(nmode))
         hi = Hvib + (eloc[i] + e0) * np.eye(nvib)
@@ -482,15 +490,42 @@ def run_holstein(desc, seed):
                 H1[i * nvib:(i + 1) * nvib, j * nvib:(j + 1) * nvib] = Jm[i, j] * np.eye(nvib)
     sig = [np.asarray(b.sigmaqn) for b in model.basis]
     viol = []
+    # direction of the couplings: <e_i, no vibration| H |e_j, no vibration> = J_ij for i != j (a spectrum cannot tell J from its transpose)
+    try:
+        dims_ = [b.nbas for b in model.basis]
+        edofs = list(model.e_dofs)
+        def idx_of(i):
+            loc = []
+            for b in model.basis:
+                if b.is_phonon:
+                    loc.append(0)
+                elif len(b.dofs) > 1:
+                    loc.append(1 + list(b.dofs).index(edofs[i]))
+                else:
+                    loc.append(1 if b.dofs[0] == edofs[i] else 0)
+            return int(np.ravel_multi_index(loc, dims_))
+        Hm = np.asarray(H)
+        for i in range(nmol):
+            for j in range(nmol):
+                if i != j and abs(Hm[idx_of(i), idx_of(j)] - Jm[i, j]) > 1e-10:
+                    viol.append({"sig": f"C16:holstein:coupling-direction:{jkind}", "msg": f"{desc}: <e{i},0|H|e{j},0> = {Hm[idx_of(i), idx_of(j)]} but J[{i},{j}] = {Jm[i, j]}"})
+                    break
+            else:
+                continue
+            break
+    except Exception as e:
+        viol.append({"sig": f"C16:holstein:coupling-direction:exception:{type(e).__name__}", "msg": f"{desc}: {e!r}"})
     for nex, Href in ((0, H0), (1, H1)):
         mask = sector_projector(sig, [nex])
         Hs = H[np.ix_(mask, mask)]
         if Hs.shape != Href.shape:
             viol.append({"sig": "C16:holstein:sector-dimension", "msg": f"{desc}: sector {nex} has dimension {Hs.shape[0]} expected {Href.shape[0]}"})
             continue
-        if not close(Hs, Hs.conj().T, 1e-10):
+        if not close(Hs, Hs.conj().T, 1e-10) and jkind != "asymmetric":
             viol.append({"sig": "C16:holstein:not-hermitian", "msg": f"{desc}: sector {nex}"})
         w1 = np.linalg.eigvalsh((Hs + Hs.conj().T) / 2)
+        if jkind == "asymmetric" and nex == 1:
+            continue       # not Hermitian by construction: judged through the matrix elements above
         w2 = np.linalg.eigvalsh(Href)
         if not np.allclose(w1, w2, atol=1e-9):
             viol.append({"sig": f"C16:holstein:spectrum:scheme{scheme}", "msg": f"{desc}: spectrum of the built Hamiltonian in the {nex}-exciton sector differs from the documented Hamiltonian by {np.abs(w1 - w2).max():.2e}"})
